@@ -1035,7 +1035,9 @@ class RTCPeerConnection(AsyncIOEventEmitter):
                 self.__sctp.setTransport(primaryTransport)
                 self.__sctp._bundled = True
 
-            # stop and discard old ICE transports
+            # stop and discard old ICE transports, except the one that is now
+            # shared (a bundled object may already have been using it)
+            oldTransports.discard(primaryTransport)
             for dtlsTransport in oldTransports:
                 await dtlsTransport.stop()
                 await dtlsTransport.transport.stop()
